@@ -351,6 +351,39 @@ def run(prop, tier, seed, known):
                             bound='300 random contiguous annotations (<=6 intervals) over 18 labels incl. inversions, enharmonic spellings, N and X', cases=n, exhaustive=False,
                             failures=fails[:3], wall_s=round(time.time() - t0, 2)))
         all_fails += fails
+        # ---- sort_labeled_intervals keeps every (interval, label) pair, whatever the labels are; hierarchy._align_intervals aligns each level on
+        # its own (a level that ends early keeps its own end when no t_max is given)
+        t0 = time.time()
+        fails, n = [], 0
+        from mir_eval import hierarchy as _hier
+        for iv_, labs_ in (([[2.0, 3.0], [0.0, 1.0], [1.0, 2.0]], [2, 'N', 1]), ([[1.0, 2.0], [0.0, 1.0]], [(7, 'min'), (0, 'maj')]),
+                           ([[3.0, 4.0], [0.0, 1.5], [1.5, 3.0]], ['c', 'a', 'b']), ([[1.0, 2.0], [0.0, 1.0]], [1.5, None])):
+            n += 1
+            try:
+                si_, sl_ = util.sort_labeled_intervals(np.array(iv_), list(labs_))
+                want_ = sorted(zip([tuple(x_) for x_ in iv_], range(len(iv_))))
+                if [tuple(x_) for x_ in np.asarray(si_).tolist()] != [w_[0] for w_ in want_] or any(a_ is not labs_[w_[1]] and a_ != labs_[w_[1]] or type(a_) is not type(labs_[w_[1]])
+                                                                                                   for a_, w_ in zip(sl_, want_)):
+                    fails.append('sort_labeled_intervals(%s, %r) = %s %r: an interval lost the label it had' % (iv_, labs_, np.asarray(si_).tolist(), sl_))
+            except Exception as ex:
+                fails.append('sort_labeled_intervals raised %s on %s %r' % (type(ex).__name__, iv_, labs_))
+        hier_i = [np.array([[0.0, 6.0]]), np.array([[0.0, 2.0], [2.0, 4.0]]), np.array([[0.5, 3.0], [3.0, 5.0]])]
+        hier_l = [['A'], ['a', 'b'], ['x', 'y']]
+        for tmax_ in (None, 6.0, 7.5):
+            n += 1
+            try:
+                ai_, al_ = _hier._align_intervals(hier_i, hier_l, t_min=0.0, t_max=tmax_)
+                for lv_ in range(3):
+                    wi_, wl_ = util.adjust_intervals(hier_i[lv_], labels=list(hier_l[lv_]), t_min=0.0, t_max=tmax_)
+                    if np.asarray(ai_[lv_]).tolist() != np.asarray(wi_).tolist() or list(al_[lv_]) != list(wl_):
+                        fails.append('hierarchy._align_intervals(t_max=%s) level %d = %s %s, each level adjusted on its own gives %s %s' % (
+                            tmax_, lv_, np.asarray(ai_[lv_]).tolist(), list(al_[lv_]), np.asarray(wi_).tolist(), list(wl_)))
+            except Exception as ex:
+                fails.append('hierarchy._align_intervals(t_max=%s) raised %s' % (tmax_, type(ex).__name__))
+        bounded.append(dict(name='util.sort_labeled_intervals keeps every (interval, label) pair in value and type; hierarchy._align_intervals adjusts each level on its own',
+                            bound='4 label kinds (mixed int / str, tuples, strings, float / None); 3 t_max settings on a hierarchy whose levels end at different times',
+                            cases=n, exhaustive=False, failures=fails[:3], wall_s=round(time.time() - t0, 2)))
+        all_fails += fails
         # ---- boundaries <-> intervals
         t0 = time.time()
         fails, n = [], 0
